@@ -182,6 +182,8 @@ func buildModel(m mModel) ([]byte, error) {
 				dims[i] = DimSpec{Size: d.Size}
 			case "sym":
 				dims[i] = DimSpec{Param: fmt.Sprintf("d%d", i)}
+			case "zero", "symempty":
+				dims[i] = DimSpec{Enc: d.Kind}
 			}
 		}
 		dt := in.Dt
